@@ -67,7 +67,7 @@ type LimScenario struct {
 func (s *LimScenario) KSeed() uint64 { return s.Seed }
 
 func init() {
-	KRegister(&KSim{Name: "limits", New: func() KScenario { return &LimScenario{} }, Gen: genLimits, Run: runLimits})
+	KRegister(&KSim{Name: "limits", New: func() KScenario { return &LimScenario{} }, Gen: genLimits, Run: runLimits, Sweep: sweepLimits})
 }
 
 var limPushKinds = []string{"stream-uni", "stream-bidi", "stream-bidi-rev", "conn", "streams-uni", "streams-bidi", "cids", "dgram", "idle"}
@@ -371,6 +371,12 @@ func genLimits(seed uint64, tier string) KScenario {
 		// keep the scenario, make the user windows the binding ones (default Config: the push ends at the Config window)
 		sc.Cfg.Win, sc.Cfg.MaxWin = [4]uint64{}, [4]uint64{}
 	}
+	if r.P(0.012) {
+		// now and then the full boundary of a built-in list: Config not the binding side, no faults
+		sc.TPs, sc.TPRot, sc.Faulty, sc.Reader = nil, 0, false, ""
+		sc.Push = []string{"stream-uni", "stream-bidi", "stream-bidi-rev", "conn"}[r.N(4)]
+		limSetConfig(sc, []string{"equal", "larger"}[r.N(2)], limBaseValues(sc.Cfg.Client))
+	}
 	sc.Net.LatencyUS = int64(r.Pick(200, 2000, 5000, 20000, 40000))
 	sc.Net.JitterUS = int64(r.Pick(0, 0, 100, 1000, 5000))
 	if sc.Faulty {
@@ -384,6 +390,74 @@ func genLimits(seed uint64, tier string) KScenario {
 	if r.P(0.2) {
 		sc.Net.Burst = r.Pick(2, 4, 16)
 	}
+	return sc
+}
+
+// limPushedWindow: the advertised stream window the pusher exercises (and the matching connection window)
+func limPushedWindow(push string, adv map[uint64]int64) int64 {
+	a := func(id uint64) int64 { return max(adv[id], 0) }
+	switch push {
+	case "stream-uni":
+		return a(limIDUni)
+	case "stream-bidi":
+		return a(limIDBidiRemote)
+	case "stream-bidi-rev":
+		return a(limIDBidiLocal)
+	}
+	return max(a(limIDUni), a(limIDBidiRemote), a(limIDBidiLocal))
+}
+
+// limSetConfig sets every user Config value of the client in one relation to the advertised value:
+// "default" (zero Config), "smaller", "equal", "larger".
+func limSetConfig(sc *LimScenario, mode string, adv map[uint64]int64) {
+	a := func(id uint64) int64 { return max(adv[id], 0) }
+	f := func(v, lo int64) int64 {
+		switch mode {
+		case "smaller":
+			return max(lo, v/2)
+		case "equal":
+			return max(lo, v)
+		case "larger":
+			return max(lo, v*2+1)
+		}
+		return 0
+	}
+	sc.Cfg.Win[0] = uint64(f(limPushedWindow(sc.Push, adv), 1000))
+	sc.Cfg.Win[1] = uint64(f(a(limIDMaxData), 1000))
+	sc.Cfg.MaxWin[0], sc.Cfg.MaxWin[1] = 0, 0
+	sc.Cfg.MaxStreams[0] = f(a(limIDStreamsBi), 1)
+	sc.Cfg.MaxUniStreams[0] = f(a(limIDStreamsUni), 1)
+	sc.Cfg.IdleMS[0] = f(a(limIDIdle), 1500)
+	sc.Cfg.Datagrams[0] = mode == "equal" || mode == "larger"
+}
+
+// sweepLimits: every built-in fingerprint x every pusher (and reader variant) x the four Config relations on a
+// fault-free network: the boundary of every advertised limit of every built-in list is reached in every sweep.
+func sweepLimits(idx int, tier string) KScenario {
+	type pv struct{ push, reader string }
+	var pvs []pv
+	for _, p := range limPushKinds {
+		pvs = append(pvs, pv{p, ""})
+		if strings.HasPrefix(p, "stream-") {
+			pvs = append(pvs, pv{p, "slow"})
+		}
+	}
+	modes := []string{"default", "smaller", "equal", "larger"}
+	n := len(wSpecNames) * len(pvs) * len(modes)
+	if idx >= n {
+		return nil
+	}
+	client := wSpecNames[idx%len(wSpecNames)]
+	v := pvs[idx/len(wSpecNames)%len(pvs)]
+	mode := modes[idx/len(wSpecNames)/len(pvs)]
+	sc := &LimScenario{Seed: KMix(0x11b5, uint64(idx)), Push: v.push, Reader: v.reader, Accept: []string{"none", "all"}[idx%2]}
+	if v.reader == "slow" {
+		sc.Accept = "all"
+	}
+	sc.Cfg = WConfig{Client: client, Version: 1, ServerCIDLen: 8, ClientCIDLen: 4}
+	sc.Cfg.Datagrams[1] = true
+	limSetConfig(sc, mode, limBaseValues(client))
+	sc.Net = WNet{LatencyUS: 5000, JitterUS: 0, Explicit: true}
 	return sc
 }
 
@@ -1138,7 +1212,7 @@ func runLimits(t *testing.T, ksc KScenario, res *KResult) {
 		// as many streams as needed (and allowed) to fill the connection window
 		var capacity uint64
 		n := 0
-		for n < 12 && capacity < adv.maxData+1 {
+		for n < 40 && capacity < adv.maxData+1 {
 			opened := false
 			if adv.uni > 0 {
 				if s, err := sconn.OpenUniStream(); err == nil {
